@@ -384,6 +384,10 @@ def build_units(conn):
     def datagram(d, packets, pad_to=0, pad_mode="frames", act=None, plain=False):
         """packets: list of (raw, sdata, meta) already built, in order"""
         raw = b"".join(p[0] for p in packets)
+        o = 0
+        for p in packets:
+            p[2]["off"] = o          # byte offset of the packet inside its datagram
+            o += len(p[0])
         if pad_to and len(raw) < pad_to and pad_mode == "trailing" and packets[-1][2]["kind"] != "1rtt":
             raw += b"\x00" * (pad_to - len(raw))
         dgrams.append(raw)
